@@ -520,7 +520,7 @@ fn gen_c06(r: &mut Prng, _i: u64, t: Tier) -> Plan {
     for k in 0..cycles {
         let a = r.below(5);
         let b = r.below(5);
-        p.streams.push(StreamPlan { opener: 0, port: k as u16, pad: r.below(4), delay: r.below(3), after: if k > 0 { Some(k - 1) } else { None }, after_abort: None, raw_host: None, sides: [gen_close_side(r, a), gen_close_side(r, b)] });
+        p.streams.push(StreamPlan { opener: 0, port: k as u16, pad: r.below(4), delay: r.below(3), after: if k > 0 { Some(k - 1) } else { None }, after_abort: None, after_let_go: None, raw_host: None, sides: [gen_close_side(r, a), gen_close_side(r, b)] });
     }
     for _ in 0..r.below(3) {
         let mut s = gen_stream(r, &CLEAN);
@@ -572,7 +572,7 @@ fn gen_c06_early_reuse(r: &mut Prng, _i: u64, _t: Tier) -> Plan {
         SidePlan { w: vec![WOp::AwaitEof, WOp::Yield(linger), WOp::Drop], r: rd, hold: false }
     };
     let sides = if x == 0 { [first, last] } else { [last, first] };
-    p.streams.push(StreamPlan { opener: 0, port: 1, pad: 0, delay: 0, after: None, after_abort: None, raw_host: None, sides });
+    p.streams.push(StreamPlan { opener: 0, port: 1, pad: 0, delay: 0, after: None, after_abort: None, after_let_go: None, raw_host: None, sides });
     // the new stream under the same id, opened while the old object still exists somewhere
     let mut s = gen_stream(r, &CLEAN);
     s.opener = new_opener;
@@ -724,6 +724,9 @@ fn gen_c11(r: &mut Prng, _i: u64, _t: Tier) -> Plan {
     for _ in 0..r.below(3) {
         p.streams.push(gen_stream(r, &CLEAN));
     }
+    // a third of the runs: the connection tasks feel tokio's cooperative budget, as on a busy
+    // runtime (spurious Pending from channel operations once a lot has happened in one turn)
+    p.coop = r.chance(1, 3);
     // "a datagram is lost only when the buffer is full or the connection ends"
     if r.chance(1, 6) {
         let kind = gen_end_cause(r);
@@ -884,7 +887,7 @@ fn gen_c15_bind_after_abort(r: &mut Prng, _i: u64, _t: Tier) -> Plan {
     // stream 0: opened by endpoint 0, aborted at once by endpoint 1's application; endpoint 0 lets go later
     let first = SidePlan { w: vec![WOp::Drop], r: vec![], hold: false };
     let last = SidePlan { w: vec![WOp::AwaitEof, WOp::Yield(linger), WOp::Drop], r: vec![ROp::ReadEof { buf: 8 }], hold: false };
-    p.streams.push(StreamPlan { opener: 0, port: 1, pad: 0, delay: 0, after: None, after_abort: None, raw_host: None, sides: [last, first] });
+    p.streams.push(StreamPlan { opener: 0, port: 1, pad: 0, delay: 0, after: None, after_abort: None, after_let_go: None, raw_host: None, sides: [last, first] });
     p.binds.push(BindReq { from: 0, port: r.next() as u16, ty: if r.chance(1, 2) { 1 } else { 3 }, hlen: r.below(12), delay: r.below(6), after_abort: true });
     // the peer application answers after the old object is gone (it takes its time)
     let answer = match r.below(3) {
@@ -978,10 +981,96 @@ fn gen_c07(r: &mut Prng, _i: u64, _t: Tier) -> Plan {
             }
             // behavioural credit cross-check: against a non-reading peer exactly `peer rwnd` writes complete
             let w: Vec<WOp> = (0..20).map(|_| WOp::Write(1)).collect();
-            p.streams.push(StreamPlan { opener: me, port: r.next() as u16, pad: 0, delay: r.below(5), after: None, after_abort: None, raw_host: Some(host), sides: [SidePlan { w: w.clone(), r: vec![], hold: true }, SidePlan { w, r: vec![], hold: true }] });
+            p.streams.push(StreamPlan { opener: me, port: r.next() as u16, pad: 0, delay: r.below(5), after: None, after_abort: None, after_let_go: None, raw_host: Some(host), sides: [SidePlan { w: w.clone(), r: vec![], hold: true }, SidePlan { w, r: vec![], hold: true }] });
         }
     }
     p
+}
+/// A flow id is proposed again while the acceptor still uses it for a stream the proposer has
+/// finished and let go of: the acceptor's slot is half-closed (or closed in both directions but
+/// still held by its application). The Connect must be rejected like one for a fully open flow,
+/// and the stream that still exists must not be touched.
+const HALF_ID: u32 = 0x0c07_0001;
+fn gen_c07_half_closed(r: &mut Prng, _i: u64, _t: Tier) -> Plan {
+    let mut p = base_plan(r);
+    p.link.latency_ms = 0;
+    // the proposer draws X for the old stream, X again for the new one, then fresh ids
+    p.eps[0].ids = vec![HALF_ID, HALF_ID, HALF_ID + 1, HALF_ID + 2, HALF_ID + 3];
+    p.eps[0].retries = *r.pick(&[2usize, 3, 5]);
+    let k = r.below(p.eps[1].rwnd.min(4) as usize + 1);
+    let mut w: Vec<WOp> = (0..k).map(|_| WOp::Write(1 + r.below(9))).collect();
+    w.push(WOp::Shutdown);
+    w.push(WOp::Drop);
+    // the proposer finishes its direction properly and drops its object
+    let finisher = SidePlan { w, r: vec![], hold: false };
+    // the acceptor's application reads to the end and keeps its object; it may shut down its own
+    // direction too, and after the id has been proposed again it may still write to its stream
+    let mut lw = vec![WOp::AwaitEof];
+    let also_shuts_down = r.chance(1, 3);
+    if also_shuts_down {
+        lw.push(WOp::Shutdown);
+    }
+    lw.push(WOp::AwaitOpened(1));
+    lw.push(WOp::Yield(r.below(20)));
+    if !also_shuts_down && r.chance(1, 2) {
+        lw.push(WOp::Write(1 + r.below(20)));
+    }
+    let holder = SidePlan { w: lw, r: vec![ROp::ReadEof { buf: 1 + r.below(8) }], hold: true };
+    p.streams.push(StreamPlan { opener: 0, port: 1, pad: 0, delay: 0, after: None, after_abort: None, after_let_go: None, raw_host: None, sides: [finisher, holder] });
+    let mut s = gen_stream(r, &CLEAN);
+    s.opener = 0;
+    s.delay = r.below(6);
+    s.after = None;
+    s.after_abort = None;
+    s.after_let_go = Some(0);
+    p.streams.push(s);
+    p
+}
+fn x_c07_half_closed(r: &DuoRun, wm: &WireModel, ei: &EndInfo, o: &mut Outcome) {
+    if ei.any_fault {
+        return;
+    }
+    let in_space = r.plan.streams.len() == 2 && r.plan.streams[1].after_let_go == Some(0) && r.plan.streams[0].sides[1].hold && r.plan.streams[0].sides[0].w.last() == Some(&WOp::Drop) && r.plan.streams[0].sides[0].w.contains(&WOp::Shutdown) && r.plan.eps[0].ids.len() >= 3 && r.plan.eps[0].ids[0] == r.plan.eps[0].ids[1] && r.plan.eps[0].ids[2] != r.plan.eps[0].ids[0] && r.plan.eps[0].retries >= 2;
+    if !in_space {
+        o.violations.clear();
+        return;
+    }
+    let _ = wm;
+    let l = r.link.lock().unwrap();
+    let led = r.led.borrow();
+    let x = r.plan.eps[0].ids[0];
+    // Connect frames endpoint 0 sent with id X, in order, and what came back for the second one
+    let connects: Vec<u64> = l.evs.iter().filter(|e| e.stage == Stage::Sent && e.from == 0 && matches!(&*e.w, Wire::Frame(RFrame::Connect { id, .. }) if *id == x)).map(|e| e.seq).collect();
+    if connects.len() < 2 {
+        return; // the id was not proposed again (the old stream never came to be, or the opener stopped)
+    }
+    let second = connects[1];
+    let holder_still_holds = led.streams[0].sides[1].dropped.is_none_or(|d| d > second);
+    if !holder_still_holds {
+        return;
+    }
+    // a flow that both sides have finished is closed, held object or not: its id is free at both
+    // ends and may be accepted again (the stale object then reads end-of-stream, fails to write,
+    // and its late drop must leave the new flow alone - the general clauses watch that)
+    let consumed_second = l.evs.iter().find(|e| e.stage == Stage::Consumed && e.from == 0 && e.seq > second && matches!(&*e.w, Wire::Frame(RFrame::Connect { id, .. }) if *id == x)).map(|e| e.seq).unwrap_or(u64::MAX);
+    if l.evs.iter().any(|e| e.stage == Stage::Sent && e.from == 1 && e.seq < consumed_second && matches!(&*e.w, Wire::Frame(RFrame::Finish { id }) if *id == x)) {
+        o.probe("id-proposed-again-after-both-sides-finished", 1);
+        return;
+    }
+    // likewise when endpoint 0 has reset the old flow in the meantime: a late Acknowledge of
+    // endpoint 1 for data it read met the slot endpoint 0 had already freed and drew a Reset
+    // (PROTOCOL.md: Reset for frames on unknown flows) - the old flow is gone at endpoint 1 too
+    if l.evs.iter().any(|e| e.stage == Stage::Consumed && e.from == 0 && e.seq > connects[0] && e.seq < consumed_second && matches!(&*e.w, Wire::Frame(RFrame::Reset { id }) if *id == x)) {
+        o.probe("id-proposed-again-after-the-old-flow-was-reset", 1);
+        return;
+    }
+    o.probe("id-proposed-again-while-the-peer-holds-a-half-closed-stream", 1);
+    let answer = l.evs.iter().find(|e| e.stage == Stage::Sent && e.from == 1 && e.seq > second && matches!(&*e.w, Wire::Frame(RFrame::Ack { id, .. }) | Wire::Frame(RFrame::Reset { id }) if *id == x));
+    match answer.map(|e| &*e.w) {
+        Some(Wire::Frame(RFrame::Reset { .. })) => o.probe("half-closed-id-rejected", 1),
+        Some(Wire::Frame(RFrame::Ack { .. })) => o.violate("C07:in-use-id-accepted", format!("endpoint 0 proposed flow id {x:x} again (seq {second}) while endpoint 1's application still held the stream with that id (finished by endpoint 0, still open from endpoint 1's side): the Connect was acknowledged instead of being rejected with Reset")),
+        _ => {}
+    }
 }
 fn x_c07(r: &DuoRun, _wm: &WireModel, ei: &EndInfo, o: &mut Outcome) {
     if ei.any_fault {
@@ -1118,9 +1207,10 @@ pub fn c07() -> Check {
         "C07",
         "exploration",
         vec![fam("crossing-opens", 300000, 3_000_000, gen_c07, OracleCfg { accountant: false, ..OracleCfg::default() }, Some(x_c07), nt_c07, "scripted flow-id RNGs on both sides draw from {0..k}, k in 2..6 (zero, live ids and the peer's simultaneous choice all occur); 1-4 concurrent new_stream_channel calls per side; hosts of 0..300 arbitrary bytes, all ports; max_flow_id_retries in {1,2,3,5}; every established stream is kept open to the end. Oracle: each successful request <-> exactly one accepted stream with the same host bytes and port (ghost or missing accepts flagged); Connect never carries id 0 or an id pending/live at its sender; Connect.rwnd / handshake Acknowledge = configured windows; exactly `peer rwnd` writes complete against a non-reading peer on both sides; FlowIdRejected exactly after max_flow_id_retries Connects. Non-trivial: at least one Reset (rejected proposal) crossed the wire.")],
-        vec!["connect-collision-with-live-or-pending-id", "open-succeeded-after-retry", "flow-id-rejected"],
+        vec!["connect-collision-with-live-or-pending-id", "open-succeeded-after-retry", "flow-id-rejected", "id-proposed-again-while-the-peer-holds-a-half-closed-stream", "half-closed-id-rejected"],
     );
     let mut c = c;
+    c.families.push(fam("half-closed-reuse", 60_000, 1_000_000, gen_c07_half_closed, OracleCfg::default(), Some(x_c07_half_closed), nt_c07, "endpoint 0 opens a stream under a scripted id X, writes a little, finishes its direction properly and drops its object (its slot is free again); endpoint 1's application reads to the end and keeps its object - its slot is half-closed (in a third of the runs it finishes its own direction too: then the flow is closed and the id free, whatever it still holds) - and may write to it later. Endpoint 0 then opens a second stream and its generator proposes X again (then fresh ids). Oracle: while endpoint 1 has not finished its direction that Connect is answered with Reset, not Acknowledge (the id is in use at endpoint 1), the request succeeds under a fresh id, and the general clauses hold for the new stream (content, no cross-talk, end-of-stream) and for the old one."));
     c.families.push(Box::new(C07RawFamily));
     c
 }
@@ -1797,7 +1887,12 @@ impl Family for C13Family {
             }
             v
         };
-        let fl = fls(r, 8);
+        let mut fl = fls(r, 8);
+        // one run in eight: from some flush on the local writer cannot flush any more
+        if r.chance(1, 8) {
+            fl.retain(|f| *f != Fl::Err);
+            fl.push(Fl::PendForever);
+        }
         let sh = fls(r, 10);
         let pushes = (0..r.below(10)).map(|_| if r.chance(1, 10) { 1 + r.below(4000) } else { 1 + r.below(30) }).collect();
         let plan = C13Plan {
